@@ -35,7 +35,7 @@ LEVEL_NOTE = ('trusted base: release mpmath 1.3.0 + the tree at 3p+300 bits agre
               'in both and at every precision is not seen unless the cell has a defining-relation oracle; inputs outside the '
               'listed cells are not covered')
 TECHNIQUE = 'runtime reference-model monitor: consensus accuracy oracle on every observed special-function value'
-SHARD_TIMEOUT = {'quick': 420, 'thorough': 3000}
+SHARD_TIMEOUT = {'quick': 1800, 'thorough': 7200}     # wall watchdog only; the shards stop on their own CPU budget
 NSHARDS = 16
 
 # value = n / 2^256
@@ -115,6 +115,16 @@ def ordered_pair(lo, hi, sign=0):
     return g
 
 
+def _expint_generic(mp, n, x):
+    """E_n(x) through the generic route x^(n-1) Gamma(1-n, x) (hypercomb), which the integer-n/real-x special code
+    mpf_expint is bypassed for by passing x as a complex number; used as R3 because release 1.3.0 shares the
+    cancellation of mpf_expint's recurrence branch"""
+    v = mp.expint(n, mp.mpc(x, 0))
+    if mp.im(v) == 0 or mp.re(x) > 0:
+        return mp.re(v)
+    return v
+
+
 pos = real_in(-3, 5, 0)
 u01 = lambda r, b: R(raw_rand(r, b, -r.choice([1, 2, 8]), 0, 0))
 param = lambda r, b: R(fl(r.uniform(0.05, 12), max(8, min(b, 53))))
@@ -126,14 +136,14 @@ def _close_pair(r, b, p):
     from vf import exactq as Q
     z = param(r, b)
     a = fl(r.uniform(0.5, 8.0), 24)
-    k = r.randint(6, min(p + 10, 80))
+    k = r.randint(6, 26)
     bb = Q.exact_raw(Q.add(Q.from_raw(a), Q.mul(Q.from_raw(a), Q.from_raw(dy(1, k)))))
     return [z, R(a), R(bb)]
 
 
 def _near_pm1(r, b, p):
     """x = +-(1 - 2^-k)"""
-    k = r.randint(4, max(5, min(p - 1, 200)))
+    k = r.randint(4, 26)
     return [R(dy(r.choice([-1, 1]) * ((1 << k) - 1), k))]
 
 TABLE = {
@@ -241,11 +251,12 @@ TABLE = {
         Cell('n=0,-1-closed-form', args(integer(-1, 0), real_in(-3, 8))),
         Cell('n=1-is-e1', args(const(I(1)), real_in(-3, 8, 0))),
         Cell('n-2..20-x-small', args(integer(2, 20), real_in(-9, 0, 0))),
-        Cell('n-2..20-x-moderate', args(integer(2, 20), real_in(0, 5, 0))),
-        cell('n-2..20-asymptotic-switch', integer(2, 20), lambda r, b, p: R(fl((p + 20) * r.uniform(0.3, 1.5), 30))),
-        Cell('n-2..20-x-large', args(integer(2, 20), real_in(8, 20, 0))),
-        Cell('n-20..1000', args(integer(20, 1000), real_in(-3, 8, 0)), cost=2),
-        cell('n-around-3wp', lambda r, b, p: I(3 * (p + 20) + r.randint(-3, 3)), real_in(-3, 8, 0), cost=2),
+        Cell('n-2..20-x<n', args(integer(8, 20), lambda r, b: R(fl(r.uniform(1, 7.9), max(8, min(b, 53))))), oracle=_expint_generic),
+        Cell('n-2..20-x-moderate', args(integer(2, 20), real_in(0, 5, 0)), oracle=_expint_generic),
+        cell('n-2..20-asymptotic-switch', integer(2, 20), lambda r, b, p: R(fl((p + 20) * r.uniform(0.3, 1.5), 30)), oracle=_expint_generic),
+        Cell('n-2..20-x-large', args(integer(2, 20), real_in(8, 20, 0)), oracle=_expint_generic),
+        Cell('n-20..1000', args(integer(20, 1000), real_in(-3, 8, 0)), cost=2, oracle=_expint_generic),
+        cell('n-around-3wp', lambda r, b, p: I(3 * (p + 20) + r.randint(-3, 3)), real_in(-3, 8, 0), cost=2, oracle=_expint_generic),
         Cell('n-negative', args(integer(-40, -2), real_in(-3, 8, 0))),
         cell('n-negative-around-3wp', lambda r, b, p: I(-3 * (p + 20) + r.randint(-3, 3)), real_in(-3, 8, 0), cost=2),
         cell('direct-convergence-switch', integer(2, 30), real_p(lambda p: (p + 18, p + 40), 0)),
@@ -349,7 +360,7 @@ TABLE = {
         Cell('large-z', args(real_in(4, 9, 0), real_in(-2, 9, 0)), fn=_lower, cost=3, precs=HEAVY_PRECS),
         Cell('neg-nonint-z', args(lambda r, b: R(fl(-r.uniform(0.05, 8) , 30)), real_in(-4, 4, 0)), fn=_lower, cost=2),
         cell('z-near-nonpos-int', near_any([0, -1, -2, -5], pk=lambda p: (4, p)), real_in(-4, 4, 0), fn=_lower, cost=2),
-        Cell('negative-b', args(param, real_in(-4, 4, 1)), fn=_lower, cost=2),
+        Cell('negative-b', args(param, real_in(-4, 1, 1)), fn=_lower, cost=3, tmax=6),
         Cell('complex', args(complex_in(-2, 3), complex_in(-3, 4)), fn=_lower, cost=3, precs=HEAVY_PRECS),
         Cell('regularized', args(param, real_in(-6, 6, 0)), fn=_lower_reg, cost=2),
         Cell('regularized-int-z', args(integer(1, 40), real_in(-4, 6, 0)), fn=_lower_reg, cost=2),
